@@ -3,6 +3,7 @@ package s3db
 import (
 	"context"
 	"fmt"
+	"net/http"
 	"strings"
 	"sync"
 	"time"
@@ -96,7 +97,10 @@ type S3Options struct {
 }
 
 func getS3(endpoint string) (*s3.S3, error) {
-	config := aws.Config{}
+	// A client of its own: with AWS_CA_BUNDLE (or a client certificate) configured, the
+	// session installs a transport into its config's HTTP client, and the default is the
+	// process-wide http.DefaultClient, which other connections are using.
+	config := aws.Config{HTTPClient: &http.Client{}}
 	if endpoint != "" {
 		config.Endpoint = &endpoint
 		config.S3ForcePathStyle = aws.Bool(true)
